@@ -30,12 +30,16 @@ where
     use crate::io::reader::index::header::read_header as read_tabix_header;
 
     let len = reader.read_i32_le().await.and_then(|len| {
-        usize::try_from(len).map_err(|e| io::Error::new(io::ErrorKind::InvalidData, e))
+        u64::try_from(len).map_err(|e| io::Error::new(io::ErrorKind::InvalidData, e))
     })?;
 
     if len > 0 {
-        let mut aux = vec![0; len];
-        reader.read_exact(&mut aux).await?;
+        let mut aux = Vec::new();
+        let n = reader.take(len).read_to_end(&mut aux).await?;
+
+        if (n as u64) < len {
+            return Err(io::Error::from(io::ErrorKind::UnexpectedEof));
+        }
 
         let mut aux_reader = &aux[..];
         read_tabix_header(&mut aux_reader)
@@ -66,6 +70,23 @@ mod tests {
         assert!(header.is_none());
 
         Ok(())
+    }
+
+    #[tokio::test]
+    async fn test_read_header_with_an_unsatisfiable_aux_length() {
+        let data = [
+            0x0e, 0x00, 0x00, 0x00, // min_shift = 14
+            0x05, 0x00, 0x00, 0x00, // depth = 5
+            0xff, 0xff, 0xff, 0x7f, // l_aux = 2147483647
+            0x00, 0x00, 0x00, 0x00,
+        ];
+
+        let mut reader = &data[..];
+
+        assert!(matches!(
+            read_header(&mut reader).await,
+            Err(e) if e.kind() == io::ErrorKind::UnexpectedEof
+        ));
     }
 
     #[tokio::test]
